@@ -307,6 +307,7 @@ class TSeq(T):
         A("seq.butlast.nth", z3.ForAll([s, i], z3.Implies(z3.And(0 <= i, i < ln(s) - 1), nth(bl(s), i) == nth(s, i)),
                                        patterns=[nth(bl(s), i)]))
         A("seq.butlast.snoc", z3.ForAll([s, x], bl(snoc(s, x)) == s, patterns=[bl(snoc(s, x))]))
+        A("seq.concat.unit", z3.ForAll([s, x], cc(s, snoc(o["empty"], x)) == snoc(s, x), patterns=[cc(s, snoc(o["empty"], x))]))
         A("seq.concat.len", z3.ForAll([s, s2], ln(cc(s, s2)) == ln(s) + ln(s2), patterns=[cc(s, s2)]))
         A("seq.concat.nth", z3.ForAll([s, s2, i], z3.Implies(z3.And(0 <= i, i < ln(s) + ln(s2)),
                                                              nth(cc(s, s2), i) == z3.If(i < ln(s), nth(s, i), nth(s2, i - ln(s)))),
